@@ -969,7 +969,7 @@ func c20RequiresCheck(run *Run, e *c20Env, r *rand.Rand) {
 	var reps []string
 	var kinds []string
 	for i := 0; i < n; i++ {
-		if r.Intn(9) == 0 {
+		if r.Intn(4) == 0 {
 			kinds = append(kinds, "Product")
 			reps = append(reps, fmt.Sprintf(`{"__typename":"Product","id":"%d"}`, 1+r.Intn(9)))
 			continue
@@ -1004,7 +1004,7 @@ func c20RequiresCheck(run *Run, e *c20Env, r *rand.Rand) {
 			run.Feat("requires:enum_value_not_mapped")
 			return
 		}
-		run.Violate(Violation{Kind: "oracle", Clause: "requires_answer", Input: in, Impl: rawFull, Detail: fmt.Sprintf("the lookup with fields %v fails: %v", chosen2names(chosen), err)}, c20RequiresMixedKnown(kinds, err))
+		run.Violate(Violation{Kind: "oracle", Clause: "requires_answer", Input: in, Impl: rawFull, Detail: fmt.Sprintf("the lookup with fields %v fails: %v", chosen2names(chosen), err)}, "")
 		return
 	}
 	if len(full) != n {
@@ -1034,7 +1034,7 @@ func c20RequiresCheck(run *Run, e *c20Env, r *rand.Rand) {
 		sub, rawSub, err := e.loadRequires(alt, variables)
 		in2 := map[string]any{"requires": true, "representations": in["representations"], "fields": chosen2names(alt)}
 		if err != nil {
-			run.Violate(Violation{Kind: "oracle", Clause: "requires_answer", Input: in2, Impl: rawSub, Detail: fmt.Sprintf("the lookup with fields %v fails (with %v it answers): %v", chosen2names(alt), chosen2names(chosen), err)}, c20RequiresMixedKnown(kinds, err))
+			run.Violate(Violation{Kind: "oracle", Clause: "requires_answer", Input: in2, Impl: rawSub, Detail: fmt.Sprintf("the lookup with fields %v fails (with %v it answers): %v", chosen2names(alt), chosen2names(chosen), err)}, "")
 			return
 		}
 		ok := len(sub) == n
@@ -1061,19 +1061,6 @@ func c20RequiresCheck(run *Run, e *c20Env, r *rand.Rand) {
 	run.mu.Lock()
 	run.TracesVsImpl++
 	run.mu.Unlock()
-}
-
-// guard of the open finding: the request of a @requires call is built from EVERY representation, also from those of other
-// entity types (which do not carry the required fields) — only when a representation of another type than Storage is present, and only for this error
-func c20RequiresMixedKnown(kinds []string, err error) string {
-	mixed := false
-	for _, k := range kinds {
-		mixed = mixed || k != "Storage" // the type whose @requires fields are selected
-	}
-	if mixed && err != nil && strings.Contains(err.Error(), "is required but has no value") {
-		return "C20-requires-call-built-from-representations-of-other-types"
-	}
-	return ""
 }
 
 func chosen2names(fs []c20Req) []string {
